@@ -241,11 +241,46 @@ theorem walk_cond_of_match (x f : Str)
   · exact literalPrefix_prefix_of_match _ _ hm
   · exact List.IsPrefix.trans (literalPrefix_append_prefix _ _) (literalPrefix_prefix_of_match _ _ hm)
 
+/-- a path matching a pattern or its `part*` extension starts with the pattern's literal prefix -/
+theorem literalPrefix_prefix_of_match_or (e f : Str)
+    (hm : (globMatch e f || globMatch (partsPattern e) f) = true) : literalPrefix e <+: f := by
+  have hm' : globMatch e f = true ∨ globMatch (partsPattern e) f = true := by simpa using hm
+  rcases hm' with hm | hm
+  · exact literalPrefix_prefix_of_match _ _ hm
+  · exact List.IsPrefix.trans (literalPrefix_append_prefix _ _) (literalPrefix_prefix_of_match _ _ hm)
+
+/-- when the expression had to be anchored, every walked path that matches starts with the `./` of the anchoring -/
+theorem anchored_match_dotslash (x g : Str) (hs : (literalPrefix x).contains '/' = false)
+    (hm : (globMatch (anchored x).1 g || globMatch (partsPattern (anchored x).1) g) = true) :
+    g = "./".toList ++ g.drop 2 := by
+  have hp := literalPrefix_prefix_of_match_or _ _ hm
+  rw [← (anchored_spec x).1] at hp
+  have h2 : (anchored x).2 = "./".toList ++ literalPrefix x := by
+    unfold anchored
+    simp only [hs, Bool.false_eq_true, if_false]
+  rw [h2] at hp
+  obtain ⟨t, ht⟩ := hp
+  have hd : "./".toList = ['.', '/'] := by decide +kernel
+  rw [hd] at ht ⊢
+  rw [← ht]
+  simp
+
+/-- `unanchor` undoes the `./` of the anchoring on every matching walked path -/
+theorem unanchor_spec (x g : Str)
+    (hm : (globMatch (anchored x).1 g || globMatch (partsPattern (anchored x).1) g) = true) :
+    if (literalPrefix x).contains '/' then unanchor x g = g else "./".toList ++ unanchor x g = g := by
+  unfold unanchor
+  cases hs : (literalPrefix x).contains '/' with
+  | true => simp
+  | false =>
+    simp only [Bool.false_eq_true, if_false]
+    exact (anchored_match_dotslash x g hs hm).symm
+
 theorem localResolve_not_file (W : List Str) (isFile : Str → Bool) (expr : Str)
     (h : isFile (stripScheme expr) = false) :
     localResolve W isFile expr =
-      W.filter fun f => globMatch (anchored (stripScheme expr)).1 f
-        || globMatch (partsPattern (anchored (stripScheme expr)).1) f := by
+      (W.filter fun f => globMatch (anchored (stripScheme expr)).1 f
+        || globMatch (partsPattern (anchored (stripScheme expr)).1) f).map (unanchor (stripScheme expr)) := by
   unfold localResolve
   simp only [h, Bool.false_eq_true, if_false]
   obtain ⟨hpre, hsl⟩ := anchored_spec (stripScheme expr)
@@ -256,6 +291,7 @@ theorem localResolve_not_file (W : List Str) (isFile : Str → Bool) (expr : Str
     | nil => exact absurd hw hne
     | cons _ _ => rfl
   simp only [this, Bool.false_eq_true, if_false, List.filter_filter]
+  congr 1
   apply List.filter_congr
   intro f _
   cases hm : (globMatch (anchored (stripScheme expr)).1 f
